@@ -312,7 +312,7 @@ func parseDataInputTokens(cfg *SuiteConfig, input string) error {
 				return fmt.Errorf("invalid time spec %q: %w", tok, err)
 			}
 			cfg.TimeStep = secs
-		case strings.HasPrefix(tokU, "S"): // session data e.g. "S064"?
+		case isSessionToken(tokU): // session data: "S" or e.g. "S064"
 			cfg.IncludeSession = true
 			// parse length if needed
 		default:
@@ -321,6 +321,19 @@ func parseDataInputTokens(cfg *SuiteConfig, input string) error {
 		}
 	}
 	return nil
+}
+
+// isSessionToken reports whether tok is the session token "S", optionally
+// followed by a three-digit length as in "S064", "S128", "S256", "S512".
+func isSessionToken(tok string) bool {
+	if tok == "S" {
+		return true
+	}
+	return len(tok) == 4 && tok[0] == 'S' && isDigit(tok[1]) && isDigit(tok[2]) && isDigit(tok[3])
+}
+
+func isDigit(c byte) bool {
+	return c >= '0' && c <= '9'
 }
 
 // parseTimeGranularity is an example that converts e.g. "1M" => 60, "2H" => 7200, "30S" => 30
